@@ -267,6 +267,11 @@ def main() -> int:
     thorough = env.tier() == "thorough"
     r = env.rng(PROP, "main")
     cases = []
+    from .. import pipeline as _pl
+
+    for i, d in enumerate(hostile.DEGENERATE):  # the degenerate texts that are valid Python (a continuation onto a blank last line, form feeds, CR line ends ...)
+        if d.strip() and _pl.valid(d):
+            cases.append({"id": f"degenerate:{i}", "text": d, "options": c04.OPTION_VECTORS[i % 4]})
     names = sorted(hostile.CONSTRUCTS)
     for i, n in enumerate(names):
         for pos in (hostile.POSITIONS if thorough else dict.fromkeys(["alone", hostile.POSITIONS[i % len(hostile.POSITIONS)], "indented_fragment", "last_no_newline"])):
